@@ -234,6 +234,11 @@ func (s *Sched) objID(o any) int {
 	if o == nil {
 		return 0
 	}
+	// maps, slices and funcs are not hashable: identify them by their data pointer
+	switch rv := reflect.ValueOf(o); rv.Kind() {
+	case reflect.Map, reflect.Slice, reflect.Func:
+		o = rv.Pointer()
+	}
 	if id, ok := s.objIDs[o]; ok {
 		return id
 	}
